@@ -613,21 +613,6 @@ func (s nilState) intOf(v ssa.Value) (int64, bool) {
 	if n, ok := s[v]; ok && n >= intBase {
 		return int64(n-intBase) - intBias, true
 	}
-	// index arithmetic on known values (the counter of a loop over a literal of fixed length)
-	if b, ok := v.(*ssa.BinOp); ok && (b.Op == token.ADD || b.Op == token.SUB) {
-		x, okx := s.intOf(b.X)
-		y, oky := s.intOf(b.Y)
-		if okx && oky {
-			r := x + y
-			if b.Op == token.SUB {
-				r = x - y
-			}
-			// only short counters are followed (a loop over a literal of a few elements); longer loops are not unrolled
-			if r >= -1 && r <= 8 {
-				return r, true
-			}
-		}
-	}
 	return 0, false
 }
 
